@@ -135,7 +135,7 @@ def _known_functions():
         import json
         from pathlib import Path
         f = Path(__file__).resolve().parent.parent / "reference" / "known_functions.json"
-        _KNOWN.append(frozenset(json.loads(f.read_text())) if f.is_file() else None)
+        _KNOWN.append(frozenset(json.loads(f.read_text())) if f.is_file() else None)  # a list of names or {name: fingerprint}
     return _KNOWN[0]
 
 
@@ -1332,19 +1332,36 @@ class Evaluator:
         if self.known is None or fi.fq in self.known or "abstractmethod" in fi.decorators \
                 or (fi.name.startswith("__") and fi.name.endswith("__")):
             return False
-        return not self._moved_known(fi)
+        return not self._moved_known(fi) and not self._renamed_known(fi)
 
     def _moved_known(self, fi: FuncInfo) -> bool:
         """A known private function that only changed its place (method -> module level, other class or module) is still that
         function: the only one of its bare name in the program, while a known function of that name is gone."""
-        if not fi.name.startswith("_"):
-            return False
         cache = self.__dict__.setdefault("_moved_cache", {})
+        if not fi.name.startswith("_"):
+            # a public function / class moved into another module and imported back under its name is still known
+            if fi.fq not in cache:
+                cache[fi.fq] = any(k.split(":", 1)[1] == fi.qualname and self.repo.find_func(*k.split(":", 1)) is None
+                                   and self.repo.modules.get(k.split(":", 1)[0]) is not None
+                                   and (lambda r: bool(r) and ((r[0] == "func" and r[1] is fi) or (r[0] == "class" and r[1] is fi.cls)))(
+                                       self.repo.resolve_name(self.repo.modules[k.split(":", 1)[0]], fi.qualname.split(".")[0]))
+                                   for k in self.known)
+            return cache[fi.fq]
         if fi.fq not in cache:
             gone = [k for k in self.known if k.rsplit(".", 1)[-1].rsplit(":", 1)[-1] == fi.name
                     and self.repo.find_func(*k.split(":", 1)) is None]
             same = [f for m in self.repo.modules.values() for q, f in m.functions.items() if q.rsplit(".", 1)[-1] == fi.name]
             cache[fi.fq] = bool(gone) and len(same) == 1
+        return cache[fi.fq]
+
+    def _renamed_known(self, fi: FuncInfo) -> bool:
+        """A known private function under a new name (same structure, see index.fingerprint) is still that function."""
+        from .index import fingerprint, known_fingerprints
+        cache = self.__dict__.setdefault("_renamed_cache", {})
+        if fi.fq not in cache:
+            fps = known_fingerprints()
+            gone = {v for k, v in fps.items() if v and self.repo.find_func(*k.split(":", 1)) is None}
+            cache[fi.fq] = bool(gone) and fingerprint(fi.node) in gone
         return cache[fi.fq]
 
     def _split_guard(self, g):
@@ -1363,6 +1380,9 @@ class Evaluator:
         defaults = list(a.defaults)
         dnames = names[len(names) - len(defaults):] if defaults else []
         kwargs = dict(kwargs)
+        for new_, old_ in getattr(fi, "kw_alias", {}).items():  # a renamed anchor seen under its old parameter names (index._renamed)
+            if new_ in kwargs and old_ not in kwargs:
+                kwargs[old_] = kwargs.pop(new_)
         for i, n in enumerate(names):
             if i < len(pos):
                 env[n] = pos[i]
